@@ -552,6 +552,9 @@ outerNew:
 			if reposition {
 				if cursor.Hyperlink != "" {
 					_, _ = vx.tw.WriteString(tparm(osc8, "", ""))
+					// The terminal no longer has a hyperlink open
+					cursor.Hyperlink = ""
+					cursor.HyperlinkParams = ""
 				}
 				_, _ = vx.tw.WriteString(tparm(cup, row+1, col+1))
 				reposition = false
